@@ -511,7 +511,9 @@ def run_chunk(chunk, tier):
                         big_case(res, ntags, sc, chain, species_as)
         res.sample(dict(layer="BG", equilibria=list(BG_TAGS)), limit=1)
     elif chunk[0] == "DS":
-        for c0, stoich, K in (([2, 1, 1], (-1, 1, -1), 1000.0), ([1, 0, 3], (-1, 1, -1), 0.25), ([5, 0, 0], (-1, 2, 1), 2.0), ([1, 1], (-2, 1), 8.0), ([0, 4], (-2, 1), 8.0)):
+        for c0, stoich, K in (([2, 1, 1], (-1, 1, -1), 1000.0), ([1, 0, 3], (-1, 1, -1), 0.25), ([5, 0, 0], (-1, 2, 1), 2.0), ([1, 1], (-2, 1), 8.0), ([0, 4], (-2, 1), 8.0),
+                              # stoichiometries with a common factor (a doubled / tripled equilibrium, constant raised accordingly)
+                              ([1, 1, 1], (-2, -2, 2), 900.0), ([2, 1, 0], (-3, -3, 3), 27.0), ([3, 0], (-2, 4), 16.0)):
             brentq_spelling_case(res, c0, stoich, K)
         claimed = 0
         for entry in ("root", "solve"):
